@@ -7,6 +7,9 @@ import RigModel.Lemmas.C04Apply
 import RigModel.Lemmas.C04Top
 import RigModel.Lemmas.C04Brute
 import RigModel.Lemmas.C04Term
+import RigModel.Lemmas.C04Utils
+import RigModel.Lemmas.C04Alias
+import RigModel.Gen.C03Links
 set_option linter.unusedSimpArgs false
 set_option linter.unusedVariables false
 
@@ -631,5 +634,323 @@ example :
     let T : List Entry := [⟨4, 0#32, 0xf#32, 8⟩, ⟨4, 1#32, 0xf#32, 16⟩, ⟨4, 2#32, 0xf#32, 8⟩, ⟨4, 3#32, 0xf#32, 8⟩]
     SortedGen T ∧ (∀ e ∈ T, e.sources ≠ 0) ∧ minimiseTable T none = .ok [⟨4, 0#32, 0xc#32, 24⟩] := by
   refine ⟨by unfold SortedGen; decide, by decide, by rfl⟩
+
+
+/-! ## Deepening 1: the library's own equivalence checker `utils.table_is_subset_of`
+
+`RouteSame a b` is `RouteEquiv a b` without the clause about source directions (the function never
+looks at the sources of `b`).  `WellFormed a`: no key bit outside the mask.  -/
+
+/-- **tableIsSubsetOf_exact** (no hypotheses).  `table_is_subset_of(a, b)` answers True exactly
+when every entry that survives `expand_entries(a, ignore_xs=get_common_xs(b))` has its
+*representative key* (the expanded entry's own `key`) routed by the first match of `b` to the
+entry's route, or unmatched by `b` with the entry default-routable. -/
+theorem wellFormed_iff (T : List Entry) : WellFormed T ↔ wellFormedB T = true := by
+  simp [WellFormed, wellFormedB]
+
+deriving instance DecidableEq for Except
+
+theorem tableIsSubsetOf_exact (a b : List Entry) :
+    tableIsSubsetOf a b = true ↔ ∀ ee ∈ expandEntries a (some (commonXs b)), RepOk b ee := by
+  simp only [tableIsSubsetOf, List.all_eq_true, subsetCheckOne_iff]
+
+/-- **tableIsSubsetOf_sound.** For a well-formed orthogonal `a` (any `b`): True implies that every
+key matched in `a` gets the same route from `b`'s first match, or is unmatched by `b` and
+default-routed exactly as its entry of `a` routes it. -/
+theorem tableIsSubsetOf_sound (a b : List Entry) (hw : WellFormed a) (ho : Orthogonal a)
+    (h : tableIsSubsetOf a b = true) : RouteSame a b := subset_sound hw ho h
+
+/-- **tableIsSubsetOf_complete.** ... and conversely: on a well-formed orthogonal `a` the function
+is exact for `RouteSame`. -/
+theorem tableIsSubsetOf_iff (a b : List Entry) (hw : WellFormed a) (ho : Orthogonal a) :
+    tableIsSubsetOf a b = true ↔ RouteSame a b :=
+  ⟨subset_sound hw ho, subset_complete hw ho⟩
+
+/-- **tableIsSubsetOf_of_routeEquiv.** It never answers False on a pair that satisfies the
+property's `RouteEquiv`, when `a` is well formed and orthogonal. -/
+theorem tableIsSubsetOf_of_routeEquiv (a b : List Entry) (hw : WellFormed a) (ho : Orthogonal a)
+    (h : RouteEquiv a b) : tableIsSubsetOf a b = true :=
+  subset_complete hw ho (routeEquiv_routeSame h)
+
+/-- **routeSame_oracle.** How the check decides `RouteSame` on the code's answers: it is
+`RouteEquiv` against `b` with every source direction listed, hence decided by the proved oracle
+`routeEquivBrute` (sources are bit sets below 2^25). -/
+theorem routeSame_oracle (a b : List Entry) (h : ∀ e ∈ a, e.sources < 2 ^ 25) :
+    RouteSame a b ↔ routeEquivBrute a (fullSources b) = none := by
+  rw [oracle_decides]; exact routeSame_iff_fullSources a b h
+
+/-- **repo oracle passes on the minimisers.** The assertion used by the repository's minimiser
+tests, `table_is_subset_of(table, minimise(table))`, is a consequence of the proved `RouteEquiv`
+for every well-formed orthogonal table with listed sources and any method list. -/
+theorem minimiseTable_passes_tableIsSubsetOf (T : List Entry) (target : Option Nat) (methods : List Method)
+    (T' : List Entry) (hw : WellFormed T) (ho : Orthogonal T) (hsrc : ∀ e ∈ T, e.sources ≠ 0)
+    (h : minimiseTable T target methods = .ok T') : tableIsSubsetOf T T' = true :=
+  tableIsSubsetOf_of_routeEquiv T T' hw ho (minimiseTable_equiv T target methods T' (Or.inl ho) hsrc h).1
+
+theorem minimise_passes_tableIsSubsetOf (T : List Entry) (target : Option Nat)
+    (T' : List Entry) (hw : WellFormed T) (ho : Orthogonal T) (hsrc : ∀ e ∈ T, e.sources ≠ 0)
+    (h : ocMinimise T target = .ok T') : tableIsSubsetOf T T' = true :=
+  tableIsSubsetOf_of_routeEquiv T T' hw ho (minimise_equiv T target T' (Or.inl ho) hsrc h).1
+
+/-- **tableIsSubsetOf_false_on_equiv.** When `a` is well formed, `b` does route every key of `a`
+identically and the function nevertheless answers False, the reason is always the same: a
+surviving expanded entry `ee` (from entry `e` of `a`) whose representative key is first-matched
+in `a` by a *different* entry `e0` with another route (or `e0` default-routable, `e` not) - so
+`a` is not orthogonal, and `ee` was not dropped by the `seen_keys` filter although it is hidden
+at that key. -/
+theorem tableIsSubsetOf_false_on_equiv (a b : List Entry) (hw : WellFormed a) (hs : RouteSame a b)
+    (h : tableIsSubsetOf a b = false) :
+    ∃ ee ∈ expandEntries a (some (commonXs b)), ∃ e ∈ a, ee ∈ expandEntry (commonXs b) e ∧
+      ∃ e0 ∈ a, lookup a ee.key = some e0 ∧ e0 ≠ e ∧ e.matches ee.key = true ∧
+        (e0.route ≠ e.route ∨ (DefaultRouted e0 ∧ ¬ DefaultRouted e)) :=
+  subset_false_shadow hw hs h
+
+/-- **not sound on overlapping tables.**  `a = [XXX…X0 -> E, XXX…0X -> N]` (well formed, sorted by
+generality), `b = [X…X -> E]`: every position is a common X of `b`, nothing is expanded, both
+entries of `a` have key 0 and the second is dropped by the `seen_keys` filter although it alone
+matches key 1.  The function answers True; key 1 goes N in `a` and E in `b`.  (Replayed on the
+real code by the harness.) -/
+theorem tableIsSubsetOf_unsound_overlapping :
+    let a : List Entry := [⟨1, 0#32, 1#32, 2 ^ 24⟩, ⟨4, 0#32, 2#32, 2 ^ 24⟩]
+    let b : List Entry := [⟨1, 0#32, 0#32, 2 ^ 24⟩]
+    WellFormed a ∧ SortedGen a ∧ tableIsSubsetOf a b = true ∧ ¬ RouteSame a b := by
+  refine ⟨(wellFormed_iff _).mpr (by decide), by unfold SortedGen; decide, by decide, ?_⟩
+  intro h
+  rcases h 1#32 ⟨4, 0#32, 2#32, 2 ^ 24⟩ (by decide) with ⟨e', h1, h2⟩ | ⟨h1, _⟩
+  · have h3 : lookup [(⟨1, 0#32, 0#32, 2 ^ 24⟩ : Entry)] 1#32 = some ⟨1, 0#32, 0#32, 2 ^ 24⟩ := by decide
+    rw [h3] at h1
+    cases h1
+    revert h2; decide
+  · revert h1; decide
+
+/-- **not sound on ill-formed tables.**  An entry with a key bit outside its mask matches nothing
+but still claims its key in `seen_keys`: `a = [(E, key 1, mask 0), (N, key 1, mask 1)]` is
+orthogonal, `b = [(E, key 1, mask 1)]`; the answer is True, key 1 goes N in `a` and E in `b`. -/
+theorem tableIsSubsetOf_unsound_illformed :
+    let a : List Entry := [⟨1, 1#32, 0#32, 2 ^ 24⟩, ⟨4, 1#32, 1#32, 2 ^ 24⟩]
+    let b : List Entry := [⟨1, 1#32, 1#32, 2 ^ 24⟩]
+    orthogonalB a = true ∧ tableIsSubsetOf a b = true ∧ ¬ RouteSame a b := by
+  refine ⟨by decide, by decide, ?_⟩
+  intro h
+  rcases h 1#32 ⟨4, 1#32, 1#32, 2 ^ 24⟩ (by decide) with ⟨e', h1, h2⟩ | ⟨h1, _⟩
+  · have h3 : lookup [(⟨1, 1#32, 1#32, 2 ^ 24⟩ : Entry)] 1#32 = some ⟨1, 1#32, 1#32, 2 ^ 24⟩ := by decide
+    rw [h3] at h1
+    cases h1
+    revert h2; decide
+  · revert h1; decide
+
+/-- **not complete on overlapping tables.**  `a = [X0 -> E, X1 -> E, 1X -> N]` (sorted by
+generality; the last entry is completely hidden), `b = [XX -> E]`: the tables route every key
+identically - even `RouteEquiv a b` holds - but the function answers False, because the hidden
+entry's representative key `10` was not seen before. -/
+theorem tableIsSubsetOf_incomplete_overlapping :
+    let a : List Entry := [⟨1, 0#32, 1#32, 2 ^ 24⟩, ⟨1, 1#32, 1#32, 2 ^ 24⟩, ⟨4, 2#32, 2#32, 2 ^ 24⟩]
+    let b : List Entry := [⟨1, 0#32, 0#32, 2 ^ 24⟩]
+    WellFormed a ∧ SortedGen a ∧ RouteEquiv a b ∧ tableIsSubsetOf a b = false := by
+  refine ⟨(wellFormed_iff _).mpr (by decide), by unfold SortedGen; decide, (oracle_decides _ _).mp (by decide), by decide⟩
+
+/-- the documented examples of `get_common_xs`, `expand_entries` and `table_is_subset_of`'s
+default-route case, on the model (the harness replays all docstring examples on the code) -/
+example : commonXs [⟨0, 4#32, 0xfffffffc#32, 0⟩, ⟨0, 2#32, 0xfffffff2#32, 0⟩] = 1#32 := by decide
+example : (expandEntries [⟨0, 4#32, 0xfffffffc#32, 0⟩, ⟨0, 2#32, 0xfffffff2#32, 0⟩] none).map (fun e => (e.key, e.mask))
+    = [(4#32, 0xfffffffe#32), (6#32, 0xfffffffe#32), (2#32, 0xfffffffe#32), (10#32, 0xfffffffe#32),
+       (14#32, 0xfffffffe#32)] := by decide
+example : tableIsSubsetOf [⟨4, 0#32, 0xf#32, 32⟩] [] = true := by decide
+
+/-! ## Deepening 2: the hypothesis `sources ≠ ∅` of `minimise_equiv` is necessary -/
+
+/-- **minimise_needs_sources.**  `T = [0000 -> E (sources = set()), 0001 -> E (from W)]` is
+orthogonal and sorted; ordered covering merges both into `000X -> E` with sources `{W}`, which
+default-route removal then drops: `minimise` returns the empty table, but the first entry never
+listed the single link the packet must have come from, so the property's default-routing clause
+does not hold for key 0000.  (`sources = set()` is outside the documented domain - `{None}` means
+unknown; the harness replays this on the real code as an out-of-domain note.) -/
+theorem minimise_needs_sources :
+    let T : List Entry := [⟨1, 0#32, 0xf#32, 0⟩, ⟨1, 1#32, 0xf#32, 8⟩]
+    Orthogonal T ∧ SortedGen T ∧ ocMinimise T none = .ok [] ∧ minimiseTable T none = .ok [] ∧
+      ¬ RouteEquiv T [] := by
+  refine ⟨?_, by unfold SortedGen; decide, by rfl, by rfl, ?_⟩
+  · unfold Orthogonal
+    simp only [List.pairwise_cons, List.mem_cons, List.not_mem_nil, or_false, forall_eq, false_imp_iff,
+      implies_true, List.Pairwise.nil, and_true]
+    intro k ⟨h1, h2⟩
+    rw [matches_iff] at h1 h2
+    simp only at h1 h2
+    rw [h1] at h2
+    revert h2; decide
+  · intro h
+    have := (oracle_decides _ _).mpr h
+    revert this; decide
+
+/-! ## Deepening 3: user-supplied alias dictionaries -/
+
+/-- **userAliases_precondition.** The hypothesis of `orderedCovering_inv` on the alias dictionary is
+exactly `AliasCover`: every key whose first match in the *sorted* table is `o` is matched by one
+of the key/masks listed for `o` (`aliases.get(km(o), {km(o)})`). -/
+theorem userAliases_precondition (S : List Entry) (A : Aliases) : Inv S S A ↔ AliasCover S A :=
+  inv_self_iff S A
+
+/-- **aliasOracle_decides.** The checker the harness runs on generated dictionaries decides that
+precondition (over all 2^32 keys). -/
+theorem aliasOracle_decides (S : List Entry) (A : Aliases) : aliasOkBrute S A = none ↔ Inv S S A := by
+  rw [inv_self_iff]; exact aliasOkBrute_none_iff' S A
+
+/-- a sufficient syntactic condition: every key/mask of the table that the dictionary lists is
+among its own aliases -/
+theorem userAliases_self (S : List Entry) (A : Aliases)
+    (h : ∀ e ∈ S, ∀ v, alGet A e.km = some v → e.km ∈ v) : Inv S S A :=
+  (inv_self_iff S A).mpr (aliasCover_of_self S A h)
+
+/-- **orderedCovering_userAliases.** `ordered_covering(table, target, aliases, no_raise)` with a
+user dictionary satisfying `AliasCover` on the sorted table: for an orthogonal or
+generality-sorted table the returned table routes every matched key identically (first match,
+same route, the original's sources listed), is sorted and not longer, and the returned dictionary
+satisfies the invariant again. -/
+theorem orderedCovering_userAliases (T : List Entry) (target : Option Nat) (A : Aliases) (noRaise : Bool)
+    (T' : List Entry) (A' : Aliases) (hg : Good T) (hA : AliasCover (sortTable T) A)
+    (h : orderedCovering T target A noRaise = .ok (T', A')) :
+    RouteEquiv T T' ∧ T'.length ≤ T.length ∧ SortedGen T' ∧ Inv (sortTable T) T' A' := by
+  obtain ⟨h1, h2, h3⟩ := orderedCovering_inv T target A noRaise T' A' ((inv_self_iff _ _).mpr hA) h
+  refine ⟨?_, h3, h2, h1⟩
+  intro k o ho
+  rw [← lookup_sortTable hg k] at ho
+  exact inv_routeEquiv _ _ _ h1 k o ho
+
+/-- **userAliases_precondition_needed.**  Without `AliasCover` the conclusion can fail:
+`T = [101 -> E, XX1 -> N, XX1 -> E]` (sorted by generality) with the dictionary
+`{XX1: {X00}}` - the listed alias does not cover `XX1` - makes the down-check blind for the two
+`XX1` entries; `ordered_covering` merges `101` with the *second* `XX1` entry and inserts the result
+above the first one: key `001` went N and now goes E.  (Replayed on the real code by the harness.) -/
+theorem userAliases_precondition_needed :
+    let T : List Entry := [⟨1, 5#32, 7#32, 2 ^ 24⟩, ⟨4, 1#32, 1#32, 2 ^ 24⟩, ⟨1, 1#32, 1#32, 2 ^ 24⟩]
+    let A : Aliases := [((1#32, 1#32), [(0#32, 3#32)])]
+    let T' : List Entry := [⟨1, 1#32, 1#32, 2 ^ 24⟩, ⟨4, 1#32, 1#32, 2 ^ 24⟩]
+    SortedGen T ∧ ¬ AliasCover (sortTable T) A ∧
+      (∃ A', orderedCovering T none A true = .ok (T', A')) ∧ ¬ RouteEquiv T T' := by
+  refine ⟨by unfold SortedGen; decide, ?_, ⟨_, by rfl⟩, ?_⟩
+  · intro h
+    have := (aliasOkBrute_none_iff' _ _).mpr h
+    revert this; decide
+  · intro h
+    have := (oracle_decides _ _).mpr h
+    revert this; decide
+
+/-- non-vacuity: a dictionary that splits `000X` into its two halves is valid, one that lists only
+one half is not -/
+example : AliasCover [⟨1, 0#32, 0xe#32, 8⟩] [((0#32, 0xe#32), [(0#32, 0xf#32), (1#32, 0xf#32)])] :=
+  (aliasOkBrute_none_iff' _ _).mp (by decide)
+example : ¬ AliasCover [⟨1, 0#32, 0xe#32, 8⟩] [((0#32, 0xe#32), [(0#32, 0xf#32)])] := by
+  intro h
+  have := (aliasOkBrute_none_iff' _ _).mpr h
+  revert this; decide
+
+/-! ## Deepening 4: `Routes` and `RoutingTableEntry` (entries.py) -/
+
+/-- the enumeration as the source has it (independent of the definition order and of the names of
+the core routes): 24 members with distinct names whose values are exactly 0..23, the six links
+carry the hardware numbers E=0, NE=1, N=2, W=3, SW=4, S=5 (so that `(l + 3) % 6` is the opposite
+link), and `sources` defaults to `{None}` -/
+theorem routes_members :
+    Rig.Gen.C04Routes.members.length = 24 ∧
+    (List.range 24).all (fun v => (List.map (·.2) Rig.Gen.C04Routes.members).contains v) = true ∧
+    (List.map (·.1) Rig.Gen.C04Routes.members).Nodup ∧
+    [("east", 0), ("north_east", 1), ("north", 2), ("west", 3), ("south_west", 4), ("south", 5)].all
+      (fun p => Rig.Gen.C04Routes.members.contains p) = true ∧
+    Rig.Gen.C04Routes.defaultSources = [24] := by
+  refine ⟨by decide, by decide, by decide, by decide, by decide⟩
+
+theorem routesOfValue_ok : ∀ v, v < 24 → routesOfValue v = .ok v := by decide
+
+/-- **routesCore_spec.** `Routes.core(n)` is `Routes(6 + n)` for 0 ≤ n ≤ 17 and `ValueError`
+otherwise. -/
+theorem routesCore_spec (n : Int) (r : Nat) :
+    routesCore n = .ok r ↔ (0 ≤ n ∧ n ≤ 17 ∧ (r : Int) = 6 + n) := by
+  simp only [routesCore]
+  by_cases h : 0 ≤ n ∧ n ≤ 17
+  · have hv : (6 + n).toNat < 24 := by omega
+    rw [if_neg (by simpa using h), routesOfValue_ok _ hv]
+    constructor
+    · intro hr; cases hr; exact ⟨h.1, h.2, by omega⟩
+    · intro ⟨_, _, hr⟩; congr 1; omega
+  · rw [if_pos (by simpa using h)]
+    constructor
+    · intro hr; cases hr
+    · intro ⟨h1, h2, _⟩; exact absurd ⟨h1, h2⟩ h
+
+theorem routesCore_error (n : Int) : routesCore n = .error .valueError ↔ ¬ (0 ≤ n ∧ n ≤ 17) := by
+  simp only [routesCore]
+  by_cases h : 0 ≤ n ∧ n ≤ 17
+  · have hv : (6 + n).toNat < 24 := by omega
+    rw [if_neg (by simpa using h), routesOfValue_ok _ hv]
+    simp [h]
+  · rw [if_pos (by simpa using h)]; simp [h]
+
+/-- **core n <-> route value / route bit 6 + n**: a core route is a core, not a link, and
+`core_num` gives the number back; links are the values 0..5 and have no core number. -/
+theorem core_roundtrip (n : Nat) (hn : n ≤ 17) :
+    routesCore n = .ok (6 + n) ∧ isCore (6 + n) = true ∧ isLink (6 + n) = false ∧
+    coreNum (6 + n) = .ok n ∧ routeOpposite (6 + n) = .error .valueError := by
+  refine ⟨(routesCore_spec n (6 + n)).mpr ⟨by omega, by omega, by omega⟩, ?_, ?_, ?_, ?_⟩
+  · simp [isCore, isLink]
+  · simp [isLink]
+  · simp [coreNum, isCore, isLink]
+  · simp [routeOpposite, isLink]
+
+theorem link_spec (r : Nat) :
+    (isLink r = true ↔ r < 6) ∧ (isLink r = true → coreNum r = .error .valueError) ∧
+    (isLink r = true → ∃ r', routeOpposite r = .ok r' ∧ r' = (r + 3) % 6 ∧ isLink r' = true ∧
+      routeOpposite r' = .ok r) := by
+  refine ⟨by simp [isLink], ?_, ?_⟩
+  · intro h; simp [coreNum, isCore, h]
+  · intro h
+    have h6 : r < 6 := by simpa [isLink] using h
+    have : r = 0 ∨ r = 1 ∨ r = 2 ∨ r = 3 ∨ r = 4 ∨ r = 5 := by omega
+    refine ⟨(r + 3) % 6, ?_, rfl, ?_, ?_⟩ <;>
+      rcases this with rfl | rfl | rfl | rfl | rfl | rfl <;> decide
+
+/-- `Routes.opposite` agrees with `Links.opposite` (rig/links.py, translated for C03) -/
+theorem routeOpposite_links :
+    (List.range 6).map routeOpposite = Rig.Gen.C03Links.oppositeTable.map Except.ok := by decide
+
+theorem bitsOf_fold_testBit (l : List Nat) (acc i : Nat) :
+    (l.foldl (fun a j => a ||| 2 ^ j) acc).testBit i = (acc.testBit i || l.contains i) := by
+  induction l generalizing acc with
+  | nil => simp
+  | cons x r ih =>
+    simp only [List.foldl_cons, ih, Nat.testBit_or, Nat.testBit_two_pow, List.contains_cons, Bool.or_assoc]
+    congr 2
+    by_cases h : x = i
+    · subst h; simp
+    · have h' : ¬ i = x := fun e => h e.symm
+      simp [h, h']
+
+/-- a set of routes as stored in an entry: bit i <-> Routes(i) is a member -/
+theorem bitsOf_testBit (l : List Nat) (i : Nat) : (bitsOf l).testBit i = l.contains i := by
+  simp [bitsOf, bitsOf_fold_testBit]
+
+/-- **mkEntry_spec.** `RoutingTableEntry(route, key, mask[, sources])` validates nothing; route
+and sources are stored as sets (order and duplicates do not matter); sources default to `{None}`;
+`Routes.core(n)` in the route is bit 6 + n. -/
+theorem mkEntry_spec (route : List Nat) (key mask : W) (sources : Option (List Nat)) :
+    let e := mkEntry route key mask sources
+    e.key = key ∧ e.mask = mask ∧ (∀ i, e.route.testBit i = route.contains i) ∧
+    (∀ s, sources = some s → ∀ i, e.sources.testBit i = s.contains i) ∧
+    (sources = none → e.sources = 2 ^ 24) := by
+  refine ⟨rfl, rfl, fun i => bitsOf_testBit _ i, ?_, ?_⟩
+  · intro s hs i; subst hs; exact bitsOf_testBit _ i
+  · intro hs; subst hs; show bitsOf Rig.Gen.C04Routes.defaultSources = 2 ^ 24; decide
+
+/-- the default-routing clause of the specification in terms of `Routes.opposite` -/
+theorem defaultRouted_iff_opposite (e : Entry) :
+    DefaultRouted e ↔ ∃ l sink, isLink l = true ∧ e.sources = bitsOf [l] ∧
+      routeOpposite l = .ok sink ∧ e.route = bitsOf [sink] := by
+  constructor
+  · intro ⟨l, hl, hs, hr⟩
+    obtain ⟨r', h1, h2, _, _⟩ := (link_spec l).2.2 (by simp [isLink, hl])
+    exact ⟨l, r', by simp [isLink, hl], by simp [bitsOf, hs], h1, by simp [bitsOf, hr, h2]⟩
+  · intro ⟨l, sink, hl, hs, ho, hr⟩
+    obtain ⟨r', h1, h2, _, _⟩ := (link_spec l).2.2 hl
+    rw [h1] at ho; cases ho
+    exact ⟨l, by simpa [isLink] using hl, by simp [bitsOf] at hs; exact hs, by simp [bitsOf, h2] at hr; exact hr⟩
 
 end Rig.C04
